@@ -144,6 +144,16 @@ class Env(object):
         self.ref = pw.make_reference(rng, self.work, n_levels=3,
                                      n_leaves=n_leaves, n_genes=n_genes,
                                      cells_per_leaf=(8, 12), rich=True)
+        # the last quarter of the genes is expressed nowhere: with four
+        # workers one whole block of the gene-major marker tables is empty
+        nz = max(1, n_genes // 4)
+        self.ref.X[:, -nz:] = 0.0
+        obs_extra = {lv: [self.ref.model.ancestor(
+            self.ref.model.leaf_level, l, lv) for l in self.ref.labels]
+            for lv in self.ref.model.hierarchy}
+        mapworld.write_h5ad(self.ref.path, self.ref.X, self.ref.cells,
+                            self.ref.genes, encoding='csr',
+                            obs_extra=obs_extra)
         self.stats = self.work / 'stats.h5'
         self.refm = self.work / 'refm.h5'
         self.pmask = self.work / 'pmask.h5'
